@@ -140,6 +140,56 @@ theorem mapM_ok_of_forall {f : K → Except Err K} {g : K → K} :
     simp only [List.mapM_cons, ha, ht, List.map_cons]
     rfl
 
+/-! ### histories -/
+
+theorem thermalHistory_append (C : BBConst K) (T : Transc K) (w : List K) :
+    ∀ (s₁ : List (ThStep K)) (th : Thermal K) (s₂ : List (ThStep K)),
+      thermalHistory C T w th (s₁ ++ s₂) =
+        thermalHistory C T w th s₁ ++ thermalHistory C T w (s₁.foldl Thermal.step th) s₂
+  | [], th, s₂ => by simp [thermalHistory]
+  | .query :: r, th, s₂ => by
+    simp only [List.cons_append, thermalHistory, List.foldl_cons, Thermal.step]
+    rw [thermalHistory_append C T w r th s₂]
+  | .setTemp v s :: r, th, s₂ => by
+    simp only [List.cons_append, thermalHistory, List.foldl_cons]
+    rw [thermalHistory_append C T w r _ s₂]
+  | .setFill f :: r, th, s₂ => by
+    simp only [List.cons_append, thermalHistory, List.foldl_cons]
+    rw [thermalHistory_append C T w r _ s₂]
+
+theorem foldl_step_emis (s : List (ThStep K)) (th : Thermal K) :
+    (s.foldl Thermal.step th).emis = th.emis := by
+  induction s generalizing th with
+  | nil => rfl
+  | cons a r ih => rw [List.foldl_cons, ih]; cases a <;> rfl
+
+/-- the temperature after a history whose steps after position `i` assign no temperature -/
+def ThStep.isSetTemp : ThStep K → Bool
+  | .setTemp _ _ => true
+  | _ => false
+
+def ThStep.isSetFill : ThStep K → Bool
+  | .setFill _ => true
+  | _ => false
+
+theorem foldl_step_temp_of_none (s : List (ThStep K)) (th : Thermal K)
+    (h : ∀ a ∈ s, ThStep.isSetTemp a = false) : (s.foldl Thermal.step th).temp = th.temp := by
+  induction s generalizing th with
+  | nil => rfl
+  | cons a r ih =>
+    rw [List.foldl_cons, ih _ (fun b hb => h b (by simp [hb]))]
+    have := h a (by simp)
+    cases a <;> simp [ThStep.isSetTemp] at this <;> rfl
+
+theorem foldl_step_fill_of_none (s : List (ThStep K)) (th : Thermal K)
+    (h : ∀ a ∈ s, ThStep.isSetFill a = false) : (s.foldl Thermal.step th).beamFill = th.beamFill := by
+  induction s generalizing th with
+  | nil => rfl
+  | cons a r ih =>
+    rw [List.foldl_cons, ih _ (fun b hb => h b (by simp [hb]))]
+    have := h a (by simp)
+    cases a <;> simp [ThStep.isSetFill] at this <;> rfl
+
 /-! ### header lookup -/
 
 theorem Header.get_nil (key : String) : Header.get ([] : Header K) key = none := rfl
